@@ -281,7 +281,7 @@ impl KotoVm {
     /// Runs the provided [Chunk], returning the resulting [KValue]
     pub fn run(&mut self, chunk: Ptr<Chunk>) -> Result<KValue> {
         // Set up an execution frame to run the chunk in
-        let frame_base = self.next_register();
+        let frame_base = self.next_register()?;
         self.registers.push(KValue::Null); // Instance register
         self.push_frame(
             chunk,
@@ -356,7 +356,7 @@ impl KotoVm {
             return unexpected_type("Function", &function);
         }
 
-        let result_register = self.next_register();
+        let result_register = self.next_register()?;
         self.registers.push(KValue::Null); // Result register
 
         let args = match (&args, &function) {
@@ -375,7 +375,7 @@ impl KotoVm {
             _ => args,
         };
 
-        let frame_base = self.next_register();
+        let frame_base = self.next_register()?;
         self.registers.push(instance.unwrap_or_default()); // Frame base
 
         let arg_count = match args {
@@ -458,10 +458,8 @@ impl KotoVm {
 
         let old_frame_count = self.call_stack.len();
 
-        let result_register = self.new_frame_base()?;
-        let Some(value_register) = result_register.checked_add(1) else {
-            return runtime_error!("Overflow of the current frame's register stack");
-        };
+        let result_register = self.next_register()?;
+        let value_register = result_register + 1;
 
         self.registers.push(KValue::Null); // `result_register`
         self.registers.push(value); // `value_register`
@@ -510,11 +508,9 @@ impl KotoVm {
 
         // Operations can be nested, e.g. when comparing containers that contain containers
         // (without end if a container contains itself), each level takes up registers.
-        let result_register = self.new_frame_base()?;
-        let Some(rhs_register) = result_register.checked_add(2) else {
-            return runtime_error!("Overflow of the current frame's register stack");
-        };
+        let result_register = self.next_register()?;
         let lhs_register = result_register + 1;
+        let rhs_register = result_register + 2;
 
         self.registers.push(KValue::Null); // Result register
         self.registers.push(lhs);
@@ -589,7 +585,7 @@ impl KotoVm {
     ) -> Result<KValue> {
         // The result register is the first register pushed by the operation; if the operation
         // fails before its registers have been discarded then discard them here.
-        let result_register = self.next_register();
+        let result_register = self.next_register()?;
         let result = self.run_read_op_inner(op, container, read_arg);
         if result.is_err() {
             self.truncate_registers(result_register);
@@ -605,7 +601,7 @@ impl KotoVm {
     ) -> Result<KValue> {
         let old_frame_count = self.call_stack.len();
 
-        let result_register = self.next_register();
+        let result_register = self.next_register()?;
         let container_register = result_register + 1;
         let read_arg_register = result_register + 2;
 
@@ -639,7 +635,7 @@ impl KotoVm {
     ) -> Result<KValue> {
         // The result register is the first register pushed by the operation; if the operation
         // fails before its registers have been discarded then discard them here.
-        let result_register = self.next_register();
+        let result_register = self.next_register()?;
         let result = self.run_write_op_inner(op, container, write_arg, write_value);
         if result.is_err() {
             self.truncate_registers(result_register);
@@ -656,7 +652,7 @@ impl KotoVm {
     ) -> Result<KValue> {
         let old_frame_count = self.call_stack.len();
 
-        let result_register = self.next_register();
+        let result_register = self.next_register()?;
         let container_register = result_register + 1;
         let write_arg_register = result_register + 2;
         let write_value_register = result_register + 3;
@@ -3861,8 +3857,17 @@ impl KotoVm {
     }
 
     // Returns the register id that corresponds to the next push to the value stack
-    fn next_register(&self) -> u8 {
-        (self.registers.len() - self.register_base) as u8
+    //
+    // Register ids are u8s relative to the frame's base. Operations that are started from native
+    // code (calls, operators, display, ...) push a handful of registers on top of the running
+    // frame, so when the frame is (nearly) full an error is returned instead of a wrapped id.
+    fn next_register(&self) -> Result<u8> {
+        const HOST_OPERATION_HEADROOM: usize = 8;
+        let next = self.registers.len() - self.register_base;
+        if next + HOST_OPERATION_HEADROOM > u8::MAX as usize {
+            return runtime_error!("too many registers are in use to start a nested operation");
+        }
+        Ok(next as u8)
     }
 
     // Sets the register, which must already be available in the stack
